@@ -30,6 +30,8 @@ enum Dec {
   /// REQ world: peer p answers the oldest request it holds; REP world: peer p sends a request
   PeerAct(usize),
   PeerDisconnect(usize),
+  /// a peer that was not connected at the start attaches now
+  PeerAttach(usize),
 }
 
 #[derive(Clone, Debug, PartialEq, Eq, Hash)]
@@ -48,6 +50,7 @@ struct Obs {
   /// per peer: what it received (REQ world: requests; REP world: replies)
   peer_rx: Vec<Vec<Vec<u8>>>,
   peers_alive: Vec<bool>,
+  peers_attached: Vec<bool>,
   /// REQ world: requests a peer holds unanswered; REP world: unused
   peer_pending: Vec<usize>,
   callers_done: usize,
@@ -74,14 +77,15 @@ async fn do_call(s: &Socket, caller: usize, seq: usize, call: Call) -> Result<Ve
 }
 
 /// One world for the REQ (is_req) or REP socket under test.
-fn run_world(is_req: bool, plans: &[Vec<Call>], npeers: usize, script: &[Dec], rcvtimeo: i32) -> world::WorldResult<Obs> {
+fn run_world(is_req: bool, plans: &[Vec<Call>], npeers: usize, late: usize, script: &[Dec], rcvtimeo: i32) -> world::WorldResult<Obs> {
   let plans: Vec<Vec<Call>> = plans.to_vec();
   let script = script.to_vec();
   world::run(1, move || async move {
     let ctx = Context::new().expect("context");
     let (ty, peer_ty) = if is_req { (SocketType::Req, SocketType::Router) } else { (SocketType::Rep, SocketType::Dealer) };
-    let s = Arc::new(stack::mk(&ctx, ty, &[(o::RCVTIMEO, rcvtimeo), (o::SNDTIMEO, 200), (o::LINGER, 0)]).await);
+    let s = Arc::new(stack::mk(&ctx, ty, &[(o::RCVTIMEO, rcvtimeo), (o::SNDTIMEO, if late > 0 { 5000 } else { 200 }), (o::LINGER, 0)]).await);
     let mut peers: Vec<Option<Socket>> = vec![];
+    let mut attached = vec![false; npeers];
     for p in 0..npeers {
       let ps = stack::mk(&ctx, peer_ty, &[(o::RCVTIMEO, 20), (o::SNDTIMEO, 100), (o::LINGER, 0)]).await;
       if peer_ty == SocketType::Dealer {
@@ -89,12 +93,15 @@ fn run_world(is_req: bool, plans: &[Vec<Call>], npeers: usize, script: &[Dec], r
       }
       // REQ under test connects to ROUTER peers (they see the request envelope); REP under test is
       // connected to by DEALER peers (which may have several requests outstanding)
-      if is_req {
-        let l = stack::link_pair(&s, &ps, 1 << 16).await;
-        std::mem::forget(l);
-      } else {
-        let l = stack::link_pair(&ps, &s, 1 << 16).await;
-        std::mem::forget(l);
+      if p + late < npeers {
+        attached[p] = true;
+        if is_req {
+          let l = stack::link_pair(&s, &ps, 1 << 16).await;
+          std::mem::forget(l);
+        } else {
+          let l = stack::link_pair(&ps, &s, 1 << 16).await;
+          std::mem::forget(l);
+        }
       }
       peers.push(Some(ps));
     }
@@ -170,6 +177,13 @@ fn run_world(is_req: bool, plans: &[Vec<Call>], npeers: usize, script: &[Dec], r
             let _ = ps.close().await;
           }
         }
+        Dec::PeerAttach(p) => {
+          if let (Some(ps), false) = (&peers[p], attached[p]) {
+            attached[p] = true;
+            let l = if is_req { stack::link_pair(&s, ps, 1 << 16).await } else { stack::link_pair(ps, &s, 1 << 16).await };
+            std::mem::forget(l);
+          }
+        }
       }
       settle_n(2).await;
       collect(is_req, &peers, &mut peer_rx, &mut held).await;
@@ -179,6 +193,7 @@ fn run_world(is_req: bool, plans: &[Vec<Call>], npeers: usize, script: &[Dec], r
       waiting: world::gates_waiting().iter().map(|w| w.1.to_string()).collect(),
       peer_rx,
       peers_alive: peers.iter().map(|p| p.is_some()).collect(),
+      peers_attached: attached.clone(),
       peer_pending: held.iter().map(|h| h.len()).collect(),
       callers_done: done.load(std::sync::atomic::Ordering::SeqCst),
     };
@@ -295,11 +310,11 @@ fn plans_for(is_req: bool, callers: usize, max_calls: usize) -> Vec<Vec<Vec<Call
   out
 }
 
-fn explore(sub: &mut Sub, is_req: bool, plans: &[Vec<Call>], npeers: usize, depth: usize, rcvtimeo: i32) {
+fn explore(sub: &mut Sub, is_req: bool, plans: &[Vec<Call>], npeers: usize, late: usize, depth: usize, rcvtimeo: i32) {
   let plans_v: Vec<Vec<Call>> = plans.to_vec();
   let mut part = Sub::new("part", "E3");
   bfs(&mut part, depth, 200_000, |hist: &[Dec]| {
-    let r = run_world(is_req, &plans_v, npeers, hist, rcvtimeo);
+    let r = run_world(is_req, &plans_v, npeers, late, hist, rcvtimeo);
     let mut violations = vec![];
     for p in &r.panics {
       violations.push(("panic".into(), p.rsplit(" @ ").next().map(mc_core::short_loc).unwrap_or_default(), p.clone()));
@@ -315,7 +330,9 @@ fn explore(sub: &mut Sub, is_req: bool, plans: &[Vec<Call>], npeers: usize, dept
       enabled.push(Dec::Release(k));
     }
     for p in 0..npeers {
-      if obs.peers_alive[p] {
+      if obs.peers_alive[p] && !obs.peers_attached[p] {
+        enabled.push(Dec::PeerAttach(p));
+      } else if obs.peers_alive[p] {
         if is_req {
           if obs.peer_pending[p] > 0 {
             enabled.push(Dec::PeerAct(p));
@@ -334,7 +351,7 @@ fn explore(sub: &mut Sub, is_req: bool, plans: &[Vec<Call>], npeers: usize, dept
     let key = (
       obs.log.iter().map(|l| format!("{}{:?}{}", l.caller, l.call, l.result)).collect::<Vec<_>>(),
       obs.waiting.clone(),
-      mc_core::digest(&(obs.peer_rx.clone(), obs.peers_alive.clone(), obs.peer_pending.clone())) as usize,
+      mc_core::digest(&(obs.peer_rx.clone(), obs.peers_alive.clone(), obs.peers_attached.clone(), obs.peer_pending.clone())) as usize,
       0usize,
     );
     let nontrivial = obs.log.iter().filter(|l| l.result.starts_with("ok:")).count() >= 2 || obs.waiting.len() >= 2;
@@ -357,7 +374,7 @@ pub fn run(tier: Tier) -> Report {
     let parts: std::sync::Mutex<Vec<Sub>> = std::sync::Mutex::new(vec![]);
     run_parallel(&plans, |pl| {
       let mut s = Sub::new("p", "E3");
-      explore(&mut s, is_req, pl, 1, depth, 60);
+      explore(&mut s, is_req, pl, 1, 0, depth, 60);
       parts.lock().unwrap().push(s);
     });
     for p in parts.into_inner().unwrap() {
@@ -373,7 +390,33 @@ pub fn run(tier: Tier) -> Report {
     let plans2: Vec<(Vec<Vec<Call>>, usize)> = plans.iter().flat_map(|p| [(p.clone(), 1usize), (p.clone(), 2usize)]).filter(|(_, n)| *n == 1 || tier == Tier::Thorough || !is_req).collect();
     run_parallel(&plans2, |(pl, np)| {
       let mut s = Sub::new("p", "E3");
-      explore(&mut s, is_req, pl, *np, depth, 60);
+      explore(&mut s, is_req, pl, *np, 0, depth, 60);
+      parts.lock().unwrap().push(s);
+    });
+    for p in parts.into_inner().unwrap() {
+      sub.absorb(p);
+    }
+    rep.add(sub);
+    // callers start while no peer is connected; the peer(s) attach later
+    let mut sub = Sub::new(&format!("{}-late-peer", name), "E3");
+    sub.rule = "as racing, but the socket under test starts with no peer: the callers' operations are parked waiting for a first peer, which attaches as one of the enumerated decisions (two peers: in either order)".into();
+    let plans = plans_for(is_req, 2, tier.pick(1, 2));
+    let mut plans3: Vec<(Vec<Vec<Call>>, usize)> = plans.iter().map(|p| (p.clone(), 1usize)).collect();
+    if tier == Tier::Thorough {
+      plans3.extend(plans.iter().map(|p| (p.clone(), 2usize)));
+    }
+    // three racing callers with one call each
+    let alpha: Vec<Call> = if is_req { vec![Call::Send, Call::Recv] } else { vec![Call::Recv, Call::Send] };
+    for a in &alpha {
+      for b in &alpha {
+        plans3.push((vec![vec![Call::Send], vec![*a], vec![*b]], 1));
+      }
+    }
+    sub.bounds = json!({"caller_plan_sets": plans3.len(), "decision_depth": depth, "late_peers": [1, 2]});
+    let parts: std::sync::Mutex<Vec<Sub>> = std::sync::Mutex::new(vec![]);
+    run_parallel(&plans3, |(pl, np)| {
+      let mut s = Sub::new("p", "E3");
+      explore(&mut s, is_req, pl, *np, *np, depth, 60);
       parts.lock().unwrap().push(s);
     });
     for p in parts.into_inner().unwrap() {
